@@ -135,11 +135,12 @@ def scratch_root():
             for name in os.listdir(base):
                 if name.startswith("nbdime-verif."):
                     pid = name.rsplit(".", 1)[1]
-                    if pid.isdigit() and not os.path.exists("/proc/%s" % pid):
+                    if pid.isdigit() and not os.path.exists("/proc/%d" % int(pid)):
                         shutil.rmtree(os.path.join(base, name), ignore_errors=True)
         except OSError:
             pass
-        _SCRATCH_ROOT = os.path.join(base, "nbdime-verif.%d" % os.getpid())
+        # (fixed width: the length of sandbox paths must not vary from run to run - they end up in request bodies)
+        _SCRATCH_ROOT = os.path.join(base, "nbdime-verif.%08d" % os.getpid())
         os.makedirs(_SCRATCH_ROOT, exist_ok=True)
     return _SCRATCH_ROOT
 
